@@ -502,10 +502,11 @@ type reportCase struct {
 	Vals  []int64 // one single-frame sample per entry (flat == cum)
 	Mode  int     // 0 minimum (pprof's default), 1 auto, 2 explicit unit
 	ToIdx int
+	Div   int // divide_by
 }
 
 func genReport(t *rapid.T) *reportCase {
-	c := &reportCase{From: spelling(t, "from"), Mode: rapid.IntRange(0, 2).Draw(t, "mode"), ToIdx: rapid.IntRange(0, 8).Draw(t, "toidx")}
+	c := &reportCase{From: spelling(t, "from"), Mode: rapid.IntRange(0, 2).Draw(t, "mode"), ToIdx: rapid.IntRange(0, 8).Draw(t, "toidx"), Div: rapid.SampledFrom([]int{1, 1, 1, 2, 3, 4, 7, 1000}).Draw(t, "divide_by")}
 	n := rapid.IntRange(1, 5).Draw(t, "n")
 	for i := 0; i < n; i++ {
 		// mantissa x a step of the family, so that entries land in different natural units
@@ -546,7 +547,7 @@ func checkReport(c *reportCase, o *vk.Obs) []string {
 	}
 	o.Label("unit:" + []string{"minimum", "auto", "explicit"}[c.Mode])
 	run := func(sign int64) (map[string]model.TopRow, string, []string) {
-		res := pp.Run(pp.Req{Flags: map[string]string{"top": "true", "output": "out", "unit": unitFlag, "trim": "false", "nodecount": "0"}, Args: []string{"src"},
+		res := pp.Run(pp.Req{Flags: map[string]string{"top": "true", "output": "out", "unit": unitFlag, "trim": "false", "nodecount": "0", "divide_by": fmt.Sprint(c.Div)}, Args: []string{"src"},
 			Sources: map[string]*pp.Source{"src": {Prof: reportProfile(c, sign)}}})
 		if res.Panic != "" {
 			return nil, "", []string{"pprof panicked: " + res.Panic}
@@ -595,7 +596,12 @@ func checkReport(c *reportCase, o *vk.Obs) []string {
 			e.Addf("entry %s (value %d %s) is missing from -top -unit=%s:\n%s", name, v, c.From.Text, unitFlag, out)
 			continue
 		}
-		want := float64(v) * fu.factor
+		want := float64(v) * fu.factor / float64(c.Div)
+		slack := 0.0
+		if c.Div != 1 {
+			slack = fu.factor // the quotient is rounded to a whole number of the sample unit
+			o.Label("divide_by")
+		}
 		if r.FlatS != "0" {
 			fi, ui, ok := famOfCanon(r.FlatUnit)
 			if !ok || fi != c.From.Fam {
@@ -604,15 +610,17 @@ func checkReport(c *reportCase, o *vk.Obs) []string {
 			}
 			units[r.FlatUnit] = true
 			f := fam[ui].factor
-			if back := r.FlatF * f; math.Abs(back-want) > 0.005*f*1.0000001+math.Abs(want)*1e-12 {
+			if back := r.FlatF * f; math.Abs(back-want) > 0.005*f*1.0000001+math.Abs(want)*1e-12+slack {
 				e.Addf("-top -unit=%s prints %q for %d %s: reads back as %v base units, original %v", unitFlag, r.FlatS, v, c.From.Text, back, want)
 			}
-			switch c.Mode {
-			case 1:
+			switch {
+			case c.Div != 1:
+				// unit laws are stated for the values themselves; with a divisor only read-back and symmetry
+			case c.Mode == 1:
 				if wantU := natural(math.Abs(want)); ui != wantU {
 					e.Addf("-top -unit=auto prints %q for %d %s: the largest unit keeping the magnitude at or above one is %s", r.FlatS, v, c.From.Text, fam[wantU].canon)
 				}
-			case 2:
+			case c.Mode == 2:
 				if fam[ui].canon != explicit.canon {
 					e.Addf("-top -unit=%s prints %q", unitFlag, r.FlatS)
 				}
@@ -623,7 +631,7 @@ func checkReport(c *reportCase, o *vk.Obs) []string {
 			e.Addf("-top -unit=%s: %s prints %q for %d %s but %q for the negated profile", unitFlag, name, r.FlatS, v, c.From.Text, nr.FlatS)
 		}
 	}
-	if c.Mode == 0 && len(e) == 0 {
+	if c.Mode == 0 && c.Div == 1 && len(e) == 0 {
 		// one unit for the whole report: the natural unit of its smallest non-zero magnitude
 		if len(units) > 1 {
 			e.Addf("-top -unit=minimum mixes units %v:\n%s", units, out)
@@ -643,5 +651,5 @@ func checkReport(c *reportCase, o *vk.Obs) []string {
 
 func TestPropReport(t *testing.T) {
 	vk.Main(t, vk.Spec[reportCase]{ID: "C15", Facet: "report", Quick: 3000, Thorough: 30000, Gen: genReport, Check: checkReport, Journal: true,
-		Rule: "profiles of 1..5 single-frame entries whose values (mantissa 1..999 times a step of the unit family, either sign) are in a drawn spelling of a byte/time/GCU unit, printed by pprof -top with unit = minimum (default) / auto / an explicit unit of the family; oracle: every printed number reads back within display rounding of the value, units stay in the family, auto picks per entry the largest unit keeping the magnitude at or above one, minimum reports everything in one unit between the natural unit of the smallest non-zero magnitude and that of 100 times it, an explicit unit is honoured, and the negated profile prints the mirrored numbers in the same units; non-trivial = at least two entries"})
+		Rule: "profiles of 1..5 single-frame entries whose values (mantissa 1..999 times a step of the unit family, either sign) are in a drawn spelling of a byte/time/GCU unit, printed by pprof -top with unit = minimum (default) / auto / an explicit unit of the family; oracle: every printed number reads back within display rounding of the value, units stay in the family, auto picks per entry the largest unit keeping the magnitude at or above one, minimum reports everything in one unit between the natural unit of the smallest non-zero magnitude and that of 100 times it, an explicit unit is honoured, and the negated profile prints the mirrored numbers in the same units (also under divide_by = 2, 3, 4, 7, 1000, where only read-back within one sample unit and the symmetry are asserted); non-trivial = at least two entries"})
 }
